@@ -237,7 +237,7 @@ def r2_q_total(ctx):
             if isinstance(a, ast.Subscript) and isinstance(a.value, ast.Name) \
                     and a.value.id in child_names:
                 subs.append((n, a))
-    ctx.floor('subscripts of Q children', len(subs), 1)
+    ctx.counts['R-C13.2 subscripts of Q children'] = len(subs)
     for n, a in subs:
         tests = [t for t in g.nodes if t.kind == 'test' and
                  isinstance(t.ast, ast.Call) and
@@ -463,6 +463,63 @@ def r6_connector_vocabulary(ctx):
                    'through a table' % len(conns))
 
 
+def r7_composites_render_recursively(ctx):
+    """A composite serialiser (Q, deconstructed objects, combined
+    expressions, dicts, lists, tuples, sets) renders its parts by calling
+    serialize_to_python() on them.  Rendering a part with %r / repr() gives
+    the same text for plain literals, but Django's __repr__ for anything else
+    (`F(start)`, `<CombinedExpression: ...>`): the hint no longer loads."""
+    ctx.rule('R-C13.7')
+    p = ctx.program
+    m = p.module(SER)
+    n_comp = 0
+    for c in m.classes.values():
+        f = c.methods.get('serialize_to_python')
+        if f is None:
+            continue
+        recursive = any(isinstance(x, ast.Call) and
+                        isinstance(x.func, ast.Name) and
+                        x.func.id == 'serialize_to_python'
+                        for x in walk_no_nested(f.node, include_lambda=True))
+        if not recursive:
+            continue
+        n_comp += 1
+        parents = {}
+        for a in ast.walk(f.node):
+            for ch in ast.iter_child_nodes(a):
+                parents[id(ch)] = a
+
+        def in_raise(n):
+            cur = n
+            while id(cur) in parents:
+                cur = parents[id(cur)]
+                if isinstance(cur, ast.Raise):
+                    return True
+            return False
+        bad = []
+        for x in walk_no_nested(f.node, include_lambda=True):
+            if isinstance(x, ast.BinOp) and isinstance(x.op, ast.Mod) and \
+                    isinstance(x.left, ast.Constant) and \
+                    isinstance(x.left.value, str) and '%r' in x.left.value \
+                    and not in_raise(x):
+                bad.append(x)
+            if isinstance(x, ast.Call) and isinstance(x.func, ast.Name) and \
+                    x.func.id == 'repr' and not in_raise(x):
+                bad.append(x)
+        if bad:
+            for b in bad:
+                ctx.finding(f, b, '%s renders a part of the value with '
+                            'repr (%s) instead of serialize_to_python(): for '
+                            'anything but a plain literal the text is '
+                            'Django\'s __repr__, not Python source' % (
+                                c.name, ' '.join(unparse(b).split())[:60]),
+                            key='part-rendered-by-repr')
+        else:
+            ctx.ok(f, '%s renders its parts through serialize_to_python()' %
+                   c.name)
+    ctx.floor('composite serialisers', n_comp, 4)
+
+
 def r5_hint_coverage(ctx):
     ctx.rule('R-C13.5')
     p = ctx.program
@@ -576,3 +633,4 @@ def run(ctx):
     r4_dispatch_total(ctx)
     r5_hint_coverage(ctx)
     r6_connector_vocabulary(ctx)
+    r7_composites_render_recursively(ctx)
